@@ -39,5 +39,7 @@ def obligations(tier):
              clause="before the computation starts the value is marked as being evaluated by the forcing thread, with no waiter: no later force finds the thunk again (at most one evaluation)"),
         dict(engine="verus", unit="lazy", function="force::thunk_succeeded", name="C17/lazy/force_thunk_succeeded", source="vm/src/lazy.rs::force (arm: the computation succeeded)",
              clause="a successful computation stores its value (a copy the lazy value's own thread may hold) and the state leaves `being evaluated` for good, so every later force returns that same value"),
+        dict(engine="verus", unit="lazy", function="Lazy::deep_clone(C17)", name="C17/lazy/Lazy_deep_clone_never_copies_blackhole", source="vm/src/lazy.rs::<Lazy as Userdata>::deep_clone",
+             clause="a lazy value that is being evaluated is refused by deep_clone; a copy is never in the being-evaluated state (nobody would complete it: every force on it would hang)"),
         v("reference", "lemma_reference_last_write", "for every history of set/get: the cell holds (a copy of) the most recently stored value", "lemma over the contracts"),
     ]
